@@ -424,7 +424,8 @@ impl<C: HCfg> Node<C> {
                     if ck & CK_C04 != 0 && (lockstep || is_spec) {
                         cx.v("C04", "lockstep-save", ni, format!("SaveGameState{{{frame}}} in lockstep/spectator mode"));
                     }
-                    cell.save(frame, Some(self.game), Some(u128::from(self.game.hash)));
+                    let checksum = if cx.scn.no_checksum.contains(&ni) { None } else { Some(u128::from(self.game.hash)) };
+                    cell.save(frame, Some(self.game), checksum);
                 }
                 GgrsRequest::LoadGameState { cell, frame } => {
                     rec.n_load = rec.n_load.saturating_add(1);
